@@ -802,7 +802,7 @@ func TestVerifC17(t *testing.T) {
 	res := mc.Run(r, mc.System{
 		Name:      "migration-commands",
 		New:       func() mc.Instance { return c17New(st) },
-		MaxDepth:  ev.Pick(r, 7, 9),
+		MaxDepth:  ev.Pick(r, 7, 10),
 		MaxStates: ev.Pick(r, int64(200000), int64(3000000)),
 		Bounds: map[string]any{"tasks": "T1 leader transfer 1->2 (created in WriteFence), T2 replica replace 3->4 (created in AddLearner)", "channels": 1,
 			"stale_fields": c17StaleFields, "seed_meta": "epoch 1/1, replicas=ISR={1,2,3}, leader 1, MinISR 2"},
